@@ -43,7 +43,7 @@ DOM = {
     'comment_start': ['%', '#', '%%'],
     'forbidden_characters': ['', '$', '%{', 'x'],
     'macro_alpha_chars': [DEFAULT_ALPHA, 'ab', DEFAULT_ALPHA + '@'],
-    'latex_context': ['none', 'default', 'small'],
+    'latex_context': ['none', 'default', 'small', 'grow'],
 }
 MATH_CONE = ('in_math_mode', 'math_mode_delimiter', 'latex_inline_math_delimiters',
              'latex_display_math_delimiters')
@@ -263,7 +263,7 @@ def generate(rng, tier, run):
             f['in_math_mode'] = True
             f['math_mode_delimiter'] = rng.choice(DOM['math_mode_delimiter'])
         if rng.random() < 0.6:
-            f['latex_context'] = rng.choice(['default', 'small'])
+            f['latex_context'] = rng.choice(['default', 'small', 'default', 'small', 'grow'])
         return f
     ops.append(['root', root_fields()])
     if rng.random() < 0.3:
@@ -280,6 +280,8 @@ def generate(rng, tier, run):
             ops.append(['root', root_fields()])
         elif x < 0.07:
             ops.append(['base_use'])
+        elif x < 0.085:
+            ops.append(['grow_ctx', rng.randrange(4)])
         elif x < 0.12:
             # two children of one parent that change the same field to different values,
             # then a grandchild of the first that leaves that field alone
@@ -371,8 +373,23 @@ def contexts():
         macrospec.SpecialsSpec('&'),
     ])
     small.freeze()
-    _ctx_cache.update({'none': None, 'default': get_default_latex_context_db(), 'small': small})
+    # a database that is still being built while states that refer to it already exist (operation grow_ctx)
+    grow = macrospec.LatexContextDb()
+    grow.add_context_category('g', macros=[macrospec.MacroSpec('ab', '[{'), macrospec.MacroSpec('x', '{')],
+                              specials=[macrospec.SpecialsSpec('~')])
+    _ctx_cache.update({'none': None, 'default': get_default_latex_context_db(), 'small': small, 'grow': grow})
     return _ctx_cache
+
+
+GROW_STEPS = [['``', "''"], ['&'], ['\n\n', '`'], ['!!', '<<']]
+
+
+def grow_context(k):
+    """Add one more category (specials with new first characters, a macro) to the unfinished database."""
+    from pylatexenc import macrospec
+    db = contexts()['grow']
+    db.add_context_category(None, macros=[macrospec.MacroSpec('g%d' % k, '{')],
+                            specials=[macrospec.SpecialsSpec(c) for c in GROW_STEPS[k % len(GROW_STEPS)]])
 
 
 _cls_cache = {}
@@ -595,7 +612,7 @@ def behaviour(ps, strings, parse_strings, stats):
         out['tokens'][s], t = token_dump(ps, s)
         stats.inc('ticks', t)
         stats.inc('token-stream-comparisons')
-    if ps.latex_context is not None:
+    if ps.latex_context is not None and ps.latex_context is not contexts().get('grow'):
         for s in parse_strings:
             for tolerant in (False, True):
                 res, t = parse_dump(ps, s, tolerant)
@@ -681,6 +698,11 @@ def execute(program):
         string starting at k (a corrupted shared table shows on many strings at once)."""
         st = live[j]
         if st['behaviour'] is None:
+            if st.get('regrown') and st['depth'] == 0:
+                # a directly constructed state on a database that grew afterwards: not a derived state,
+                # nothing to compare it with; record how it behaves now
+                st['behaviour'] = behaviour(st['ps'], st['strings'], st['pstrings'], stats)
+                return
             # first use of a state that was left unused: full comparison with a fresh one
             st['behaviour'] = compare_with_fresh(st['ps'], opi, j, st['strings'], st['pstrings'])
             return
@@ -726,6 +748,21 @@ def execute(program):
                 q.get_fields()
                 token_dump(q, 'a$b%c')
                 stats.inc('op:base_use')
+            elif kind == 'grow_ctx':
+                try:
+                    grow_context(op[1])
+                    stats.inc('op:grow_ctx')
+                except RuntimeError:
+                    outcome = 'skipped'          # somebody froze it
+                else:
+                    g = contexts()['grow']
+                    for st in live:
+                        if st['ps'].latex_context is g:
+                            # what the state recognises has legitimately changed; a derived state is
+                            # compared with a fresh one again at its next use, a root is just recorded anew
+                            st['behaviour'] = None
+                            st['regrown'] = True
+                            stats.inc('probe:state-on-a-database-that-grew')
             elif kind == 'root':
                 if len(live) >= max_live:
                     outcome = 'skipped'
